@@ -194,6 +194,20 @@ func (t *termer) term(v ssa.Value, d int) string {
 	case *ssa.SliceToArrayPointer:
 		return t.term(v.X, d+1)
 	case *ssa.Slice:
+		// the `new([N]T)[:]` of variadic calls and slice literals prints as its elements
+		if v.Low == nil && v.High == nil {
+			if al, ok := v.X.(*ssa.Alloc); ok {
+				if _, named := varName(al); !named {
+					if els := varargElems(v); len(els) > 0 {
+						var parts []string
+						for _, e := range els {
+							parts = append(parts, t.term(e, d+1))
+						}
+						return "[" + strings.Join(parts, ", ") + "]"
+					}
+				}
+			}
+		}
 		s := t.term(v.X, d+1) + "["
 		if v.Low != nil {
 			s += t.term(v.Low, d+1)
